@@ -18,10 +18,10 @@ from .facts import (
     place_str,
 )
 
-VK = ("inc", "dec", "init", "alloc", "free_s1", "free_raw", "own", "make_agg", "uclone", "user", "drops")
+VK = ("inc", "dec", "init", "alloc", "free_s1", "free_raw", "own", "make_agg", "uclone", "user", "drops", "retgt")
 IDX = {k: i for i, k in enumerate(VK)}
 ZERO = tuple(0 for _ in VK)
-CAP = {"user": 3, "uclone": 3}
+CAP = {"user": 3, "uclone": 3, "retgt": 2}
 
 Effect = namedtuple("Effect", "exit tag vec pcalls notes trace origin")
 
@@ -208,6 +208,8 @@ class Engine:
         if cls == model.PANIC:
             return ([UNW_PANIC], "PANIC", path)
         if cls == model.NEUTRAL:
+            if path in ("core::mem::replace", "core::mem::swap", "core::mem::take", "core::ptr::replace", "core::ptr::swap") and targs and f.tokens(targs[0])[0] > 0:
+                return ([mk(v=vec(retgt=1))], "RETARGET", {"via": path, "handle": f.handle_name(targs[0]), "whole": True})
             return ([RET0], "STD", path)
         if cls == model.MAYPANIC:
             return ([RET0, UNW_MAYPANIC], "STD", path)
@@ -220,7 +222,7 @@ class Engine:
             return ([mk(v=vec(own=n), notes=notes)], "MAKE" if n else "STD", {"n": n, "ty": f.ts(x) if x is not None else "?", "via": path})
         if cls == model.DROPV:
             x = targs[0]
-            return (self.drop_effects(x, None), "DROP", {"ty": f.ts(x), "via": path})
+            return (self.drop_effects(x, None), "DROP", {"ty": f.ts(x), "ty_idx": x, "adt": f.ty(x).get("path"), "via": path})
         if cls == model.DROPP:
             x = targs[0]
             n, _ = f.tokens(x)
@@ -530,6 +532,9 @@ class Engine:
                     if isinstance(pe, dict) and pe.get("adt") == f.inner_path and f.data_field and pe.get("f") == f.data_field[0]:
                         emit(st, "DATAREF", bb, s["span"], ZERO, {"mut": rv["mut"], "raw": k == "rawptr", "place": place_str(rv["place"])})
                         break
+            # re-pointing an existing handle as a whole: `*r = new_handle`
+            if lhs["p"] == ["deref"] and "ty" in lhs and f.tokens(lhs["ty"])[0] > 0 and k == "use":
+                emit(st, "RETARGET", bb, s["span"], vec(retgt=1), {"place": place_str(lhs), "handle": f.handle_name(lhs["ty"]), "whole": True})
             # retarget: assignment through a handle's pointer field
             if lhs["p"]:
                 last = lhs["p"][-1]
